@@ -550,6 +550,108 @@ func famBigBatch(e *env, root *core.Rand, n int) {
 	}
 }
 
+// ---- family cancel (sqlite, memory and file): the caller's context is cancelled at a random instant during
+// Create / Delete (the connection is interrupted: any statement, or the COMMIT itself, may fail).
+// Only implications are checked, never an instant: Create nil => the complete plan is readable; Create error
+// => no trace; Delete nil => no trace; Delete error => the plan is completely there or completely gone; no
+// panic; afterwards the store answers (every id is read, and rows are counted, after every call). ----
+func famCancel(e *env, root *core.Rand, n int) {
+	for i := 0; i < n; i++ {
+		r := root.Fork(uint64(9000 + i))
+		bk := []string{"sqlite-mem", "sqlite-file"}[i%2]
+		b, _, rec := open(bk)
+		nSlots := 3
+		mks := make([]func() *workflow.Plan, nSlots)
+		live := make([]bool, nSlots)
+		for j := range mks {
+			size := []int{0, 0, 1}[(i+j)%3] // mostly small plans: the COMMIT is then a larger share of the call
+			mks[j] = maker(r.Fork(uint64(10+j)), size, 0.1)
+			rec.IDs = append(rec.IDs, mks[j]().ID)
+		}
+		// how long do the undisturbed calls take here and now? (only used to aim the cancellation)
+		var tCreate, tDelete time.Duration
+		for k := 0; k < 3; k++ {
+			give := mks[0]()
+			s := time.Now()
+			err := b.Vault.Create(ctx, give)
+			tCreate += time.Since(s)
+			rec.Created_(mks[0](), err, "create", "CCreate")
+			s = time.Now()
+			err = b.Vault.Delete(ctx, give.ID)
+			tDelete += time.Since(s)
+			rec.Deleted_(give.ID, err, "delete", "CDelete")
+		}
+		tCreate, tDelete = tCreate/3, tDelete/3
+		ops := 24
+		for k := 0; k < ops && !rec.Dead; k++ {
+			j := r.Intn(nSlots)
+			if !live[j] {
+				d := time.Duration(r.Intn(int(tCreate)*3/2 + 1))
+				give := mks[j]()
+				err := rec.CallCancelled("Create (context cancelled)", d, func(ctx context.Context) error { return b.Vault.Create(ctx, give) })
+				rec.Created_(mks[j](), err, "create-cancelled", "CCancelledCreate")
+				if err != nil && k%3 == 0 {
+					err = rec.Create(mks[j](), mks[j](), "create")
+				}
+				live[j] = err == nil
+			} else {
+				d := time.Duration(r.Intn(int(tDelete)*3/2 + 1))
+				id := mks[j]().ID
+				err := rec.CallCancelled("Delete (context cancelled)", d, func(ctx context.Context) error { return b.Vault.Delete(ctx, id) })
+				rec.Deleted_(id, err, "delete-cancelled", "CCancelledDelete")
+				ex, _ := b.Vault.Exists(ctx, id)
+				live[j] = ex
+			}
+		}
+		e.emit("cancel", i, bk, rec, true, nil, nil)
+		closeVault(b, rec)
+	}
+}
+
+// ---- family cancelburst (sqlite): many Deletes of a tiny plan, each cancelled late in the call (where the
+// last DELETE statements and the COMMIT are); same implications as family cancel ----
+func famCancelBurst(e *env, root *core.Rand, n, tries int) {
+	for i := 0; i < n; i++ {
+		r := root.Fork(uint64(9500 + i))
+		bk := []string{"sqlite-mem", "sqlite-file"}[i%2]
+		b, _, rec := open(bk)
+		seed := r.Fork(1)
+		mk := func() *workflow.Plan {
+			q := seed.Fork(0)
+			p := plangen.New(q, plangen.Opts{GroupP: 0.0001, MaxBlocks: 1, MaxSeqs: 1, MaxActions: 1, MaxCheckActions: 1}).Plan()
+			storelib.Materialize(q, p, storelib.MatOpts{Plain: true})
+			return p
+		}
+		id := mk().ID
+		rec.IDs = []uuid.UUID{id}
+		var tDelete time.Duration
+		for k := 0; k < 4; k++ {
+			give := mk()
+			err := b.Vault.Create(ctx, give)
+			rec.Created_(mk(), err, "create", "CCreate")
+			s := time.Now()
+			err = b.Vault.Delete(ctx, id)
+			tDelete += time.Since(s)
+			rec.Deleted_(id, err, "delete", "CDelete")
+		}
+		tDelete /= 4
+		live := false
+		for k := 0; k < tries && !rec.Dead; k++ {
+			if !live {
+				live = rec.Create(mk(), mk(), "create") == nil
+				continue
+			}
+			d := tDelete*4/10 + time.Duration(r.Intn(int(tDelete)*8/10+1)) // 0.4 .. 1.2 of an undisturbed Delete
+			err := rec.CallCancelled("Delete (context cancelled)", d, func(cx context.Context) error { return b.Vault.Delete(cx, id) })
+			rec.Deleted_(id, err, "delete-cancelled", "CCancelledDelete")
+			ex, _ := b.Vault.Exists(ctx, id)
+			live = ex
+		}
+		e.emit("cancelburst", i, bk, rec, true, nil, nil)
+		closeVault(b, rec)
+	}
+}
+
 // ---- family kill (thorough): child process killed during Create on a file-backed store ----
 func childKill(dir string, seed uint64, idx int) {
 	set := storelib.NewSet()
@@ -654,6 +756,8 @@ func main() {
 	nCollide := flag.Int("collide", 10, "cases")
 	nFault := flag.Int("fault", 16, "cases")
 	nBig := flag.Int("bigbatch", 2, "big plans for the cosmosdb batch family (three cases each)")
+	nCancel := flag.Int("cancel", 10, "cases of the context-cancelled family (24 cancelled calls each)")
+	nBurst := flag.Int("cancelburst", 16, "cases of the late-cancelled Delete burst (about 150 cancelled Deletes each)")
 	nKill := flag.Int("kill", 0, "cases (thorough)")
 	out := flag.String("out", "-", "output file (JSONL)")
 	childDir := flag.String("child-kill", "", "internal: run as the child of the kill family on this directory")
@@ -685,5 +789,7 @@ func main() {
 	famCollide(e, root, *nCollide, sq)
 	famFault(e, root, *nFault)
 	famBigBatch(e, root, *nBig)
+	famCancel(e, root, *nCancel)
+	famCancelBurst(e, root, *nBurst, 300)
 	famKill(e, root, *nKill)
 }
